@@ -3,7 +3,7 @@
 import ast
 
 from .. import bitalg
-from ..astutil import Env, chain, src, walk, const, stmts, strip_not
+from ..astutil import Env, chain, src, walk, const, stmts, strip_not, kwarg
 from ..model import Unrecognised
 from ..sorts import Sorter
 from .c13 import name_is
@@ -449,8 +449,21 @@ def init_template(model, R, rules):
     # _init call
     calls = [n for n in walk(func.body) if isinstance(n, ast.Call) and (chain(n.func) or [''])[-1] == '_init']
     if G:
-        ok = len(calls) == 1 and [src(a) for a in calls[0].args][-2:] == [p_ctx, cons] and not any(k.arg == 'unpickle' for k in calls[0].keywords)
-        R.check(ok, G, func, calls[0] if calls else func.node, 'Lattice: the full member list is installed', f'self._init(self, {p_ctx}, {cons}, mapping=...)',
+        init = model.func('lattices.Data._init')
+        ok = False
+        if len(calls) == 1:
+            c = calls[0]
+            # _init(inst, context, concepts, mapping=None, unpickle=False): a static method called with the instance, or a
+            # regular method called on it
+            names = init.params
+            args = list(c.args)
+            if isinstance(c.func, ast.Attribute) and not any((chain(d) or [''])[-1] == 'staticmethod' for d in init.node.decorator_list):
+                args = [c.func.value] + args
+            bound = dict(zip(names, args))
+            bound.update({k.arg: k.value for k in c.keywords if k.arg})
+            ok = (len(names) >= 3 and src(bound.get(names[1])) == p_ctx and src(bound.get(names[2])) == cons
+                  and ('unpickle' not in bound or const(bound['unpickle'], 'x') is False))
+        R.check(ok, G, func, calls[0] if calls else func.node, 'Lattice: the full member list is installed', f'self._init(self, {p_ctx}, {cons}, mapping)',
                 src(calls[0]) if calls else 'no call')
     # key functions
     if O:
